@@ -598,6 +598,13 @@ impl Check for PathProp {
             }
             _ => {}
         }
+        // a tenth of the scenarios assign the public parameter fields after setup (the
+        // constructor got other values)
+        if matches!(self.id, "C02" | "C03" | "C05" | "C06") && rng.chance(0.1) && !scn.calls.iter().any(|c| matches!(c, CallSpec::New)) {
+            let ext = scn.param("ext").unwrap_or(1.0);
+            let ctor = gen::gen_planner(&mut rng, scn.planner.kind, ext);
+            scn.reconfigure_after_setup(ctor);
+        }
         scn
     }
 
@@ -760,6 +767,7 @@ fn op_label(scn: &Scenario, ci: usize) -> String {
         CallSpec::New => "new".into(),
         CallSpec::Setup { .. } => "setup".into(),
         CallSpec::SetProblem { .. } => "set_problem".into(),
+        CallSpec::SetParams { .. } => "set_params".into(),
         CallSpec::Construct { .. } => {
             if nth(&|c| matches!(c, CallSpec::Construct { .. })) == 1 { "construct1".into() } else { "construct2+".into() }
         }
@@ -1366,6 +1374,7 @@ impl Check for C08 {
                 CallSpec::SetProblem { .. } => "set_problem_definition",
                 CallSpec::Construct { .. } => "construct_roadmap",
                 CallSpec::Solve { .. } => "solve",
+                CallSpec::SetParams { .. } => "assigning the public parameter fields",
             };
             // 1. every call returns normally
             match &call.res {
@@ -1412,6 +1421,7 @@ impl Check for C08 {
                     pd = None;
                     vc = None;
                 }
+                CallSpec::SetParams { .. } => {}
                 CallSpec::Setup { problem } => {
                     pd = Some(*problem);
                     vc = Some(scn.problems[*problem].world);
